@@ -2,6 +2,7 @@ import WmModel.Props.C01
 import WmModel.Props.C01Conf
 import WmModel.Props.C01Stage
 import WmModel.Props.C01Sub
+import WmModel.Props.C01Prod
 import WmModel.Props.C02Tie
 #print axioms Wm.Pipeline.no_loss_inv
 #print axioms Wm.Pipeline.ack_after_accept
@@ -38,3 +39,6 @@ import WmModel.Props.C02Tie
 #print axioms Wm.GcSub.hand_entered_only_by_delivery
 #print axioms Wm.GcSub.sub_step_refines_token
 #print axioms Wm.GcSub.sub_run_acked_stays
+#print axioms Wm.GcProd.fresh_publication_is_pending
+#print axioms Wm.GcProd.publish_creates_pending_token
+#print axioms Wm.GcProd.publish_creates_nothing_elsewhere
